@@ -5,7 +5,7 @@ for the tree the models were written against (harness/constants_baseline.json). 
 under test are compared with that record: a literal that is NEW is a size / threshold somebody introduced, and the
 generators of every property plant inputs around it (lengths, chunk sizes, run lengths, byte widths K-1, K, K+1, 2K …)
 when it is small enough to be enumerated.  The comparison never decides anything; it only directs the search."""
-import ast, os, json, glob, hashlib
+import ast, os, json, glob, hashlib, warnings
 
 ROOT = os.path.dirname(os.path.dirname(os.path.abspath(__file__)))
 BASE = os.path.join(ROOT, 'harness', 'constants_baseline.json')
@@ -50,7 +50,9 @@ def scan(repo):
             rel = os.path.relpath(p, repo)
             try:
                 src = open(p).read()
-                tree = ast.parse(src)
+                with warnings.catch_warnings():
+                    warnings.simplefilter('ignore')
+                    tree = ast.parse(src)
             except Exception:
                 continue
             res[rel] = sorted(_consts(tree))
